@@ -107,7 +107,54 @@ func (m *C09) Done(w *world.World) {
 }
 func (m *C09) Block(w *world.World, e *world.BlockEvent) {}
 
+// entitled: the DID is the model's owner or one of its read-write grantees (pre-state).
+func entitled(md *modeltypes.Metadata, did string) bool {
+	if md.Owner == did {
+		return true
+	}
+	for _, d := range md.ReadwriteDids {
+		if d == did {
+			return true
+		}
+	}
+	return false
+}
+
+// contentOracle: independent of the request factory — whenever the content version or history of an existing
+// model changes, the order that caused it must have been created for (signed by) the owner or a grantee.
+func (m *C09) contentOracle(w *world.World, e *world.TxEvent) {
+	for d, a := range e.Pre.Metas {
+		b, ok := e.Post.Metas[d]
+		if !ok || a.CreatedAt != b.CreatedAt {
+			continue
+		}
+		if a.Commit == b.Commit && reflect.DeepEqual(a.Commits, b.Commits) && a.Cid == b.Cid && a.OrderId == b.OrderId {
+			continue
+		}
+		var by string
+		switch msg := e.Msg.(type) {
+		case *saotypes.MsgComplete:
+			if o, ok := e.Pre.Orders[msg.OrderId]; ok {
+				by = o.Owner
+			}
+		case *saotypes.MsgStore:
+			by = msg.Proposal.Owner
+		case *saotypes.MsgRenew:
+			by = msg.Proposal.Owner
+		default:
+			continue // cancel / terminate / timeouts restore or remove, decided elsewhere
+		}
+		ac := a
+		if by != "" && !entitled(&ac, by) {
+			w.Violate("C09", "content-changed-by-order-of-unentitled-did:"+e.Kind, fmt.Sprintf("tx %s changed version/history of model %s (owner %s) on behalf of %s, which is neither its owner nor a read-write grantee: commit %q -> %q, %d -> %d history entries", e.Kind, d, a.Owner, by, a.Commit, b.Commit, len(a.Commits), len(b.Commits)), nil)
+		}
+	}
+}
+
 func (m *C09) Tx(w *world.World, e *world.TxEvent) {
+	if e.Pre != nil && e.Post != nil && e.OK {
+		m.contentOracle(w, e)
+	}
 	if e.Meta == nil || e.Pre == nil || e.Post == nil {
 		return
 	}
@@ -485,6 +532,9 @@ func scnAuthz(ctx *check.JobCtx) {
 				w.EndBlock()
 			}
 		}
+	}
+	if !w.Halted() {
+		staleOrderOnRecreatedModel(a)
 	}
 	w.Sample("authz matrix: %d models probed, trace head: %s", len(a.models), traceSummary(w))
 	w.Finish()
